@@ -318,11 +318,11 @@ def encBAtoms (A : List (LTL.BAtom Nat)) : String :=
 
   `ORDERING|<names>|<op>;<op>;…`   `ListOrdering([names])`, then the operations on it
         answer: `ERR RuntimeError` (a repeated variable), or `OK ; <answer> ; …` with
-        `contains x` -> true/false        `cmp x y` -> `OK <int>` / `ERR KeyError`      `inorder x y` -> `OK true|false` / `ERR KeyError`
+        `contains x` -> true/false        `cmp x y` -> `OK <int>` / `ERR RuntimeError`      `inorder x y` -> `OK true|false` / `ERR RuntimeError`
         `list` -> the names of `get_list()`      `str` -> `__str__`      `eq <names>` -> `==` with `ListOrdering([names])`
         `eqother` -> `==` with three things that are not a ListOrdering (an object, None, the list itself)
   `RESPECT|<names>|<named tree>`   `node.respect_ordering(ListOrdering([names]))`; named tree: `0` | `1` | `( name lo hi )`
-        answer `OK true|false` / `ERR RuntimeError|KeyError`
+        answer `OK true|false` / `ERR RuntimeError`
   `OBDDAPI|<stmt>;<stmt>;…|<exp0>|<exp1>|…`   a session over a pool of values; `<expK>` are expression S-expressions
         (as in `BDD|…`, variables as positions in the ordering the expression is parsed under, `-` when missing)
      value tokens: `i<int>` int, `bT`/`bF` bool, `f<int>` the float <int>.0, `h<int>` the float <int>.5, `s<name>` str,
@@ -335,8 +335,9 @@ def encBAtoms (A : List (LTL.BAtom Nat)) : String :=
              whose expression is <expK>), or `L<K>:<name>,<name>,…` (the str `lambda names: <expK>`); ordering: a value token
         `restrict $i var value`   `nrestrict $i var value` (BDDNode.restrict)   `and|or|xor $i a`   `inv $i`
         not pushed:  `eq|ne|req $i a` -> true/false   `vars $i` -> names (sorted)   `str $i` -> code points
-        `fresh` (not pushed, answers ok): from here on no terminal node exists yet (a fresh interpreter); the kind of
-             value (float or not) each terminal is first requested with is remembered, see `TermVals`
+             `tval $i` -> `.value` of the terminal node `$i` as `<type> <true|false>` (always `bool …`, see `NBDD.value`)
+        `fresh` (not pushed, answers ok): from here on no terminal node exists yet (a fresh interpreter); the model
+             has no such state (a terminal holds `bool(value)` whatever it is first requested with)
      answers: `node <tree>`, `obdd <N | l<names>> : <tree>`, `ordering l<names>`, `None`, `ERR <exception>`,
         `unmodelled` (a non-str variable), `bad-ref` / `bad-op` (malformed statement)
   `STORE|<op>;<op>;…`   the unique table; refs are `T0`, `T1`, `#<id>`
@@ -439,26 +440,16 @@ def apiSession (stmts : List String) (exps : Array String) : List String :=
       | [k, args] => (getExp k).map (Bfunct.lam (decNameList args))
       | _ => none
     else (decVal pool t).map Bfunct.val
-  let (_, _, outs) := stmts.foldl (fun (st : Array (Option PyVal) × TermVals × List String) stmt =>
-    let (pool, tv, outs) := st
-    -- any operation other than an explicit terminal request creates the missing terminals with int / bool values
-    let tv' := (tv.create false false).create true false
+  let (_, outs) := stmts.foldl (fun (st : Array (Option PyVal) × List String) stmt =>
+    let (pool, outs) := st
     let pushV (r : Except Err PyVal) := match r with
-      | .ok v => (pool.push (some v), tv', encVal v :: outs)
-      | .error e => (pool.push none, tv', encErr e :: outs)
-    let pushT (a : PyVal) (r : Except Err PyVal) := match r, a.asBit with
-      | .ok v, some b => (pool.push (some v), tv.create b a.isFloat, encVal v :: outs)
-      | .ok v, none => (pool.push (some v), tv, encVal v :: outs)
-      | .error e, _ => (pool.push none, tv, encErr e :: outs)
-    let bad (o : String) := (pool.push none, tv, o :: outs)
-    let say (o : String) := (pool, tv, o :: outs)
+      | .ok v => (pool.push (some v), encVal v :: outs)
+      | .error e => (pool.push none, encErr e :: outs)
+    let bad (o : String) := (pool.push none, o :: outs)
+    let say (o : String) := (pool, o :: outs)
     let obddAt (t : String) : Option OBDDv := match decVal pool t with | some (.obdd o) => some o | _ => none
     match words stmt with
-    | ["fresh"] => (pool, TermVals.fresh, "ok" :: outs)
-    | ["node", a] =>
-      (match decVal pool a with
-       | some v => pushT v ((terminal v).map PyVal.node)
-       | none => bad "bad-ref")
+    | ["fresh"] => say "ok"
     | "node" :: args =>
       (match args.mapM (decVal pool) with
        | some vs => (match BDDNode.new vs with
@@ -467,7 +458,7 @@ def apiSession (stmts : List String) (exps : Array String) : List String :=
        | none => bad "bad-ref")
     | ["term", a] =>
       (match decVal pool a with
-       | some v => pushT v ((terminal v).map PyVal.node)
+       | some v => pushV ((terminal v).map PyVal.node)
        | none => bad "bad-ref")
     | ["nonterm", x, lo, hi] =>
       (match decVal pool x, decVal pool lo, decVal pool hi with
@@ -501,9 +492,9 @@ def apiSession (stmts : List String) (exps : Array String) : List String :=
        | some o, some a =>
          if op == "eq" || op == "req" then say (encExcept (fun (b : Bool) => toString b) (o.eq a))
          else if op == "ne" then say (encExcept (fun (b : Bool) => toString (!b)) (o.eq a))
-         else if op == "and" then pushV ((OBDDv.apply (· && ·) (fun _ _ => false) o a).map PyVal.obdd)
-         else if op == "or" then pushV ((OBDDv.apply (· || ·) (fun _ _ => false) o a).map PyVal.obdd)
-         else if op == "xor" then pushV ((OBDDv.apply (fun x y => x != y) tv'.xorBad o a).map PyVal.obdd)
+         else if op == "and" then pushV ((OBDDv.apply (· && ·) o a).map PyVal.obdd)
+         else if op == "or" then pushV ((OBDDv.apply (· || ·) o a).map PyVal.obdd)
+         else if op == "xor" then pushV ((OBDDv.apply (fun x y => x != y) o a).map PyVal.obdd)
          else say "bad-op"
        | _, _ => if op == "eq" || op == "req" || op == "ne" then say "bad-ref" else bad "bad-ref")
     | ["vars", i] =>
@@ -511,13 +502,18 @@ def apiSession (stmts : List String) (exps : Array String) : List String :=
        | some (.obdd o) => say (" ".intercalate ((dedupStr (sortStr o.variables)).map encName))
        | some (.node t) => say (" ".intercalate ((dedupStr (sortStr t.vars)).map encName))
        | _ => say "bad-ref")
+    | ["tval", i] =>
+      (match (decVal pool i).bind PyVal.asNode |>.bind NBDD.value with
+       | some (.bool b) => say s!"bool {b}"
+       | some _ => say "value"
+       | none => say "bad-ref")
     | ["str", i] =>
       (match decVal pool i with
        | some (.obdd o) => say (encText o.toStr)
        | some (.node t) => say (encText t.printStr)
        | some (.ordering O) => say (encText (Ordering.str O))
        | _ => say "bad-ref")
-    | _ => say "bad-op") (#[], TermVals.clean, [])
+    | _ => say "bad-op") (#[], [])
   outs.reverse
 
 open PMC.BDD in
